@@ -1066,7 +1066,7 @@ class Allocation:
 
         self.set_max_utilization(max_utilization)
         self.set_traits(traits)
-        self.update(reserved, rank, 0)
+        self.update(reserved, rank, 0, max_utilization)
         self.apps = dict()
         self.sub_allocations = dict()
         self.path = []
